@@ -423,6 +423,49 @@ fn judge_expr(tables: &Tables, e: &E, guards: &[E], reduced: bool, layer: &str, 
 
 const SDEF: &str = "CREATE TABLE t(line = '^([a-z]*) ([0-9]*) ?(.*)$', line[1] => k TEXT, line[2] => v INT, line[3] => s TEXT);";
 
+const EDEF: &str = "CREATE TABLE e('^(.*)$' => x TEXT);\nCREATE TABLE d('k=([a-z]+)' => k TEXT DEFAULT 'none', '^(zzz)$' => z TEXT);";
+const EMPTY_STMTS: [&str; 6] = ["SELECT x FROM e", "SELECT input, x FROM e WHERE x != 'a'", "SELECT length(x) FROM e", "SELECT k FROM d", "SELECT input FROM d WHERE k = 'none'", "SELECT * FROM d"];
+
+fn empty_line_case(tables: &Tables, si: usize, seq: &[u8]) -> Vec<Failure> {
+    let el = ["a", "", "k=b", " "];
+    let lines: Vec<&str> = seq.iter().map(|i| el[*i as usize]).collect();
+    let text = EMPTY_STMTS[si];
+    let st = sut::parse(text).expect(text);
+    let kre = regex::Regex::new("k=([a-z]+)").unwrap();
+    let mut expected: Vec<Vec<RVal>> = Vec::new();
+    for l in &lines {
+        let k = kre.captures(l).map(|c| c[1].to_string()).unwrap_or("none".into());
+        match si {
+            0 => expected.push(vec![RVal::Text(l.to_string())]),
+            1 => {
+                if *l != "a" {
+                    expected.push(vec![RVal::Text(l.to_string()), RVal::Text(l.to_string())]);
+                }
+            }
+            2 => expected.push(vec![RVal::Int(l.chars().count() as i64)]),
+            3 => expected.push(vec![RVal::Text(k)]),
+            4 => {
+                if k == "none" {
+                    expected.push(vec![RVal::Text(l.to_string())]);
+                }
+            }
+            _ => expected.push(vec![RVal::Text(k), RVal::Null]),
+        }
+    }
+    let got = sut::run_batch(tables, &st, &lines);
+    if matches!(&got, sut::Outcome::Ok(t) if sut::rows_same(&t.rows, &expected)) {
+        return vec![];
+    }
+    vec![fail(
+        format!("shape:empty-line-table:{}", text),
+        format!("`{}` over {:?}: expected rows {:?}", text, lines, expected),
+        json!({"layer": "S-empty", "si": si, "seq": seq, "statement": text, "lines": lines}),
+        sut::rows_json(&expected),
+        sut::outcome_json(&got, |t| t.to_json()),
+        seq.len() as u64,
+    )]
+}
+
 fn shape_lines() -> Vec<&'static str> {
     vec!["a 1 x", "b 2 y", "a 3", "c  z", "###"]
 }
@@ -622,6 +665,25 @@ pub fn run(ctx: &Ctx) -> i32 {
             }
         }
     }
+    // tables on which an empty line is a row (catch-all pattern, DEFAULT column): every line gives exactly one output row
+    {
+        let etables = sut::make_tables(EDEF).unwrap();
+        let el = ["a", "", "k=b", " "];
+        let ke = el.len() as u64;
+        for idx in 0..seq_count(ke, 3) {
+            let seq = seq_decode(idx, ke, 3);
+            for si in 0..EMPTY_STMTS.len() {
+                for f in empty_line_case(&etables, si, &seq) {
+                    col.fail(f);
+                }
+                col.eval(1);
+                n_s += 1;
+                if seq.iter().any(|i| *i == 1) && seq.len() >= 2 {
+                    col.nontrivial(h64(&("S-empty", &seq, si)));
+                }
+            }
+        }
+    }
     col.layer("S-statement-shapes", n_s, true, json!({"projections": 8, "filters": 4, "line_sequences": nseq}));
     col.sample(json!({"layer": "S", "statement": "SELECT k, v + 1, s AS z, upper(k) FROM t WHERE v > 1", "lines": ["a 1 x", "###", "b 2 y"]}));
     finish(
@@ -638,6 +700,10 @@ pub fn run(ctx: &Ctx) -> i32 {
 }
 
 pub fn replay(case: &J) -> Vec<Failure> {
+    if case["layer"].as_str() == Some("S-empty") {
+        let seq: Vec<u8> = case["seq"].as_array().unwrap().iter().map(|x| x.as_u64().unwrap() as u8).collect();
+        return empty_line_case(&sut::make_tables(EDEF).unwrap(), case["si"].as_u64().unwrap() as usize, &seq);
+    }
     if case["layer"].as_str() == Some("S") {
         let stables = sut::make_tables(SDEF).unwrap();
         let seq: Vec<u8> = case["seq"].as_array().unwrap().iter().map(|x| x.as_u64().unwrap() as u8).collect();
